@@ -77,12 +77,15 @@ type Thread struct {
 	held   int // modelled mutexes currently held (for reports)
 }
 
+//go:norace
 func (t *Thread) String() string { return fmt.Sprintf("T%d(%s)", t.ID, t.Site) }
 
 // Done reports whether the thread has returned (or panicked).
+//go:norace
 func (t *Thread) Done() bool { return t.done }
 
 // Pending describes the operation the thread is parked on.
+//go:norace
 func (t *Thread) Pending() string {
 	s := opNames[t.kind]
 	if t.label != "" {
@@ -164,7 +167,7 @@ type Exec struct {
 	threads      []*Thread
 	cur          *Thread
 	yield        chan struct{}
-	chans        map[uintptr]*chState
+	chans        chanTable
 	timers       []*chState
 	timerSeq     int
 	now          time.Duration
@@ -195,10 +198,15 @@ var E *Exec
 
 var epoch = time.Date(2030, 1, 1, 0, 0, 0, 0, time.UTC)
 
+//go:norace
 func (e *Exec) Clock() time.Duration { return e.now }
+//go:norace
 func (e *Exec) Threads() []*Thread   { return e.threads }
+//go:norace
 func (e *Exec) Deviations() int      { return e.devs }
+//go:norace
 func (e *Exec) StateSig() [2]uint64  { return e.sig }
+//go:norace
 func Self() *Thread {
 	if E == nil {
 		return nil
@@ -206,15 +214,18 @@ func Self() *Thread {
 	return E.cur
 }
 
+//go:norace
 func active() bool { return E != nil && !E.tearing }
 
 // Fail records a harness-detected property failure and stops the execution at the next scheduling point.
+//go:norace
 func (e *Exec) Fail(format string, a ...any) {
 	if e.Failure == "" {
 		e.Failure = fmt.Sprintf(format, a...)
 	}
 }
 
+//go:norace
 func mix(a, b uint64) uint64 {
 	x := a ^ (b + 0x9e3779b97f4a7c15 + (a << 6) + (a >> 2))
 	x ^= x >> 33
@@ -225,9 +236,11 @@ func mix(a, b uint64) uint64 {
 	return x
 }
 
+//go:norace
 func mix2(h uint64) [2]uint64 { return [2]uint64{mix(h, 0x1234567), mix(h, 0x89abcdef0)} }
 
 // touch records that the running thread performed one operation on the given objects.
+//go:norace
 func (e *Exec) touch(objs ...*hbObj) {
 	t := e.cur
 	t.opIdx++
@@ -255,6 +268,7 @@ func (e *Exec) touch(objs ...*hbObj) {
 // ---------------------------------------------------------------- threads
 
 // Go starts a modelled thread.
+//go:norace
 func Go(site string, f func()) {
 	if Native {
 		go f()
@@ -280,6 +294,7 @@ func Go(site string, f func()) {
 
 // GoQuiet starts a modelled thread without making the creation a scheduling point of the parent
 // (harness set-up: the start order of the spawned threads is explored anyway).
+//go:norace
 func GoQuiet(site string, f func()) {
 	if Native {
 		go f()
@@ -293,6 +308,7 @@ func GoQuiet(site string, f func()) {
 	e.spawn(p, site, path, f)
 }
 
+//go:norace
 func (e *Exec) spawn(p *Thread, site string, path []int32, f func()) *Thread {
 	t := &Thread{ID: len(e.threads), Site: site, Parent: p, wake: make(chan struct{}), exited: make(chan struct{}), kind: opStart, path: path}
 	h := uint64(0x51ed)
@@ -309,6 +325,7 @@ func (e *Exec) spawn(p *Thread, site string, path []int32, f func()) *Thread {
 	return t
 }
 
+//go:norace
 func threadMain(e *Exec, t *Thread, f func()) {
 	defer close(t.exited)
 	raceDisable()
@@ -346,6 +363,7 @@ var tearToken int
 
 // unwind is what a parked thread does when the execution is being torn down: first publish its past
 // (phase 1), then, when woken again, run its deferred calls alone (phase 2).
+//go:norace
 func unwind(t *Thread) {
 	raceReleaseObj(unsafe.Pointer(&tearToken))
 	raceDisable()
@@ -356,6 +374,7 @@ func unwind(t *Thread) {
 	runtime.Goexit()
 }
 
+//go:norace
 func park(t *Thread) {
 	e := E
 	if e != nil && e.inCond {
@@ -377,6 +396,7 @@ func park(t *Thread) {
 }
 
 // caller names the first frame outside this package (tracing only).
+//go:norace
 func caller() string {
 	pc := make([]uintptr, 12)
 	n := runtime.Callers(3, pc)
@@ -397,6 +417,7 @@ func caller() string {
 }
 
 // Point is a bare scheduling point.
+//go:norace
 func Point() {
 	if Native || !active() {
 		return
@@ -407,6 +428,7 @@ func Point() {
 }
 
 // PointL is a scheduling point with a label shown in traces.
+//go:norace
 func PointL(label string) {
 	if Native || !active() {
 		return
@@ -419,6 +441,7 @@ func PointL(label string) {
 }
 
 // Yield is what a polling loop must call: a scheduling point.
+//go:norace
 func Yield() { Point() }
 
 // Var is a harness-visible shared object: every access through Note is a scheduling point and a
@@ -430,6 +453,7 @@ type Var struct {
 
 // Note marks an access of the running thread to v (call it before reading or writing harness state
 // that other threads also touch).
+//go:norace
 func (v *Var) Note() {
 	if Native {
 		return
@@ -442,6 +466,7 @@ func (v *Var) Note() {
 }
 
 // Do runs f as one atomic access to v.
+//go:norace
 func (v *Var) Do(f func()) {
 	if Native {
 		v.mu.Lock()
@@ -453,10 +478,16 @@ func (v *Var) Do(f func()) {
 	raceAcquireObj(unsafe.Pointer(v))
 	f()
 	raceReleaseObj(unsafe.Pointer(v))
+	// what a harness publishes through a Var is visible to a thread that later wakes from an Await
+	// on it (a real program would hand the object over through a channel or a mutex)
+	raceReleaseObj(unsafe.Pointer(&awaitToken))
 }
+
+var awaitToken int
 
 // Await blocks the calling thread until cond holds. cond must be a pure function of state that only
 // changes at scheduling points.
+//go:norace
 func Await(cond func() bool) {
 	if Native {
 		for !cond() {
@@ -473,9 +504,11 @@ func Await(cond func() bool) {
 	park(t)
 	t.cond = nil
 	E.touch()
+	raceAcquireObj(unsafe.Pointer(&awaitToken))
 }
 
 // Choose is an environment answer in [0,n); 0 is the default.
+//go:norace
 func Choose(n int, label string) int {
 	if Native || !active() || n <= 1 {
 		return 0
@@ -494,6 +527,7 @@ func Choose(n int, label string) int {
 	return p
 }
 
+//go:norace
 func strhash(s string) uint64 {
 	h := uint64(14695981039346656037)
 	for i := 0; i < len(s); i++ {
@@ -512,6 +546,7 @@ type Mutex struct {
 	owner  *Thread
 }
 
+//go:norace
 func (m *Mutex) fresh() {
 	if m.hb.ex != E {
 		m.locked = false
@@ -522,6 +557,7 @@ func (m *Mutex) fresh() {
 	}
 }
 
+//go:norace
 func (m *Mutex) Lock() {
 	if Native {
 		m.real.Lock()
@@ -546,6 +582,7 @@ func (m *Mutex) Lock() {
 	raceAcquireObj(unsafe.Pointer(m))
 }
 
+//go:norace
 func (m *Mutex) Unlock() {
 	if Native {
 		m.real.Unlock()
@@ -568,6 +605,7 @@ func (m *Mutex) Unlock() {
 	E.touch(&m.hb)
 }
 
+//go:norace
 func (m *Mutex) TryLock() bool {
 	if Native {
 		return m.real.TryLock()
@@ -589,6 +627,7 @@ func (m *Mutex) TryLock() bool {
 }
 
 // Held reports whether the mutex is held and by whom (harness oracles).
+//go:norace
 func (m *Mutex) Held() (bool, *Thread) {
 	if m.hb.ex != E {
 		return false, nil
@@ -608,6 +647,7 @@ type RWMutex struct {
 	readersBy []*Thread
 }
 
+//go:norace
 func (m *RWMutex) announcer() []*Thread {
 	if m.wowner != nil {
 		return []*Thread{m.wowner}
@@ -615,6 +655,7 @@ func (m *RWMutex) announcer() []*Thread {
 	return nil
 }
 
+//go:norace
 func (m *RWMutex) dropReader(t *Thread) {
 	for i, r := range m.readersBy {
 		if r == t {
@@ -627,6 +668,7 @@ func (m *RWMutex) dropReader(t *Thread) {
 	}
 }
 
+//go:norace
 func (m *RWMutex) fresh() {
 	if m.hb.ex != E {
 		m.announced, m.writing, m.readers, m.wowner, m.readersBy = false, false, 0, nil, nil
@@ -636,6 +678,7 @@ func (m *RWMutex) fresh() {
 	}
 }
 
+//go:norace
 func (m *RWMutex) Lock() {
 	if Native {
 		m.real.Lock()
@@ -662,6 +705,7 @@ func (m *RWMutex) Lock() {
 	raceAcquireObj(unsafe.Pointer(m))
 }
 
+//go:norace
 func (m *RWMutex) Unlock() {
 	if Native {
 		m.real.Unlock()
@@ -683,6 +727,7 @@ func (m *RWMutex) Unlock() {
 	E.touch(&m.hb)
 }
 
+//go:norace
 func (m *RWMutex) RLock() {
 	if Native {
 		m.real.RLock()
@@ -704,6 +749,7 @@ func (m *RWMutex) RLock() {
 	raceAcquireObj(unsafe.Pointer(m))
 }
 
+//go:norace
 func (m *RWMutex) RUnlock() {
 	if Native {
 		m.real.RUnlock()
@@ -724,6 +770,7 @@ func (m *RWMutex) RUnlock() {
 	E.touch(&m.hb)
 }
 
+//go:norace
 func (m *RWMutex) TryLock() bool {
 	if Native {
 		return m.real.TryLock()
@@ -742,6 +789,7 @@ func (m *RWMutex) TryLock() bool {
 	return true
 }
 
+//go:norace
 func (m *RWMutex) TryRLock() bool {
 	if Native {
 		return m.real.TryRLock()
@@ -761,14 +809,18 @@ func (m *RWMutex) TryRLock() bool {
 	return true
 }
 
+//go:norace
 func (m *RWMutex) RLocker() sync.Locker { return (*rlocker)(m) }
 
 type rlocker RWMutex
 
+//go:norace
 func (r *rlocker) Lock()   { (*RWMutex)(r).RLock() }
+//go:norace
 func (r *rlocker) Unlock() { (*RWMutex)(r).RUnlock() }
 
 // State reports (writer held or announced, readers) for harness oracles.
+//go:norace
 func (m *RWMutex) State() (bool, int) {
 	if m.hb.ex != E {
 		return false, 0
@@ -785,6 +837,7 @@ type Once struct {
 	m    Mutex
 }
 
+//go:norace
 func (o *Once) Do(f func()) {
 	if Native {
 		o.real.Do(f)
@@ -807,10 +860,7 @@ func (o *Once) Do(f func()) {
 	o.m.Lock()
 	defer o.m.Unlock()
 	if !o.done {
-		defer func() {
-			raceReleaseObj(unsafe.Pointer(o))
-			o.done = true
-		}()
+		defer o.finish()
 		f()
 	} else {
 		raceAcquireObj(unsafe.Pointer(o))
@@ -825,6 +875,7 @@ type WaitGroup struct {
 	n    int
 }
 
+//go:norace
 func (w *WaitGroup) fresh() {
 	if w.hb.ex != E {
 		w.hb.ex = E
@@ -833,6 +884,7 @@ func (w *WaitGroup) fresh() {
 	}
 }
 
+//go:norace
 func (w *WaitGroup) Add(d int) {
 	if Native {
 		w.real.Add(d)
@@ -851,8 +903,10 @@ func (w *WaitGroup) Add(d int) {
 	}
 }
 
+//go:norace
 func (w *WaitGroup) Done() { w.Add(-1) }
 
+//go:norace
 func (w *WaitGroup) Wait() {
 	if Native {
 		w.real.Wait()
@@ -880,6 +934,7 @@ type AtomicValue struct {
 	v  any
 }
 
+//go:norace
 func (a *AtomicValue) fresh() {
 	if a.hb.ex != E {
 		a.hb.ex = E
@@ -887,6 +942,7 @@ func (a *AtomicValue) fresh() {
 	}
 }
 
+//go:norace
 func (a *AtomicValue) Load() any {
 	if !Native && active() {
 		a.fresh()
@@ -898,6 +954,7 @@ func (a *AtomicValue) Load() any {
 	return a.v
 }
 
+//go:norace
 func (a *AtomicValue) Store(v any) {
 	if v == nil {
 		panic("sync/atomic: store of nil value into Value")
@@ -915,6 +972,7 @@ func (a *AtomicValue) Store(v any) {
 	a.v = v
 }
 
+//go:norace
 func (a *AtomicValue) Swap(v any) any {
 	if !Native && active() {
 		a.fresh()
@@ -928,6 +986,7 @@ func (a *AtomicValue) Swap(v any) any {
 	return old
 }
 
+//go:norace
 func (a *AtomicValue) CompareAndSwap(old, new any) bool {
 	if !Native && active() {
 		a.fresh()
@@ -945,6 +1004,7 @@ func (a *AtomicValue) CompareAndSwap(old, new any) bool {
 
 // ---------------------------------------------------------------- channels
 
+//go:norace
 func (e *Exec) chanOf(ch any) *chState {
 	v := reflect.ValueOf(ch)
 	if v.Kind() != reflect.Chan {
@@ -954,11 +1014,11 @@ func (e *Exec) chanOf(ch any) *chState {
 		return nil
 	}
 	p := v.Pointer()
-	s, ok := e.chans[p]
-	if !ok {
+	s := e.chans.get(p)
+	if s == nil {
 		s = &chState{cap: v.Cap(), keep: ch}
 		s.hb.ex = e
-		e.chans[p] = s
+		e.chans.put(p, s)
 	}
 	return s
 }
@@ -970,15 +1030,19 @@ type Case struct {
 	st   *chState
 }
 
+//go:norace
 func Recv(ch any) Case { return Case{ch: ch} }
+//go:norace
 func Send(ch any) Case { return Case{ch: ch, send: true} }
 
+//go:norace
 func complete(w *waiter) {
 	*w.done = true
 	w.t.ready = true
 	w.t.selIdx = w.idx
 }
 
+//go:norace
 func firstLive(q []*waiter) (*waiter, []*waiter) {
 	for len(q) > 0 {
 		w := q[0]
@@ -990,6 +1054,7 @@ func firstLive(q []*waiter) (*waiter, []*waiter) {
 	return nil, q
 }
 
+//go:norace
 func hasLive(q []*waiter) bool {
 	for _, w := range q {
 		if !*w.done {
@@ -1000,6 +1065,7 @@ func hasLive(q []*waiter) bool {
 }
 
 // Close closes a channel.
+//go:norace
 func Close(ch any) {
 	if Native {
 		reflect.ValueOf(ch).Close()
@@ -1037,6 +1103,7 @@ func Close(ch any) {
 
 // Select models a select statement over signal-only channels; it returns the index (among the
 // cases passed, in order) of the clause that proceeded, or -1 for default.
+//go:norace
 func Select(hasDefault bool, cases ...Case) int {
 	if Native {
 		return nativeSelect(hasDefault, cases)
@@ -1155,9 +1222,11 @@ func Select(hasDefault bool, cases ...Case) int {
 }
 
 // SendStmt models `ch <- v` for signal-only channels.
+//go:norace
 func SendStmt(ch any) { Select(false, Send(ch)) }
 
 // RecvStmt models `<-ch`; ok is false when the channel is closed and drained.
+//go:norace
 func RecvStmt(ch any) (ok bool) {
 	if Native {
 		_, ok := reflect.ValueOf(ch).Recv()
@@ -1173,6 +1242,7 @@ func RecvStmt(ch any) (ok bool) {
 
 // ---------------------------------------------------------------- time
 
+//go:norace
 func Now() time.Time {
 	if Native || E == nil {
 		return time.Now()
@@ -1180,9 +1250,12 @@ func Now() time.Time {
 	return epoch.Add(E.now)
 }
 
+//go:norace
 func Since(t time.Time) time.Duration { return Now().Sub(t) }
+//go:norace
 func Until(t time.Time) time.Duration { return t.Sub(Now()) }
 
+//go:norace
 func (e *Exec) newTimer(d time.Duration, ch any, fn func()) *chState {
 	s := &chState{cap: 1, timer: true, at: e.now + d, fn: fn, keep: ch}
 	if d < 0 {
@@ -1192,13 +1265,14 @@ func (e *Exec) newTimer(d time.Duration, ch any, fn func()) *chState {
 	e.timerSeq++
 	s.seq = e.timerSeq
 	if ch != nil {
-		e.chans[reflect.ValueOf(ch).Pointer()] = s
+		e.chans.put(reflect.ValueOf(ch).Pointer(), s)
 	}
 	e.timers = append(e.timers, s)
 	return s
 }
 
 // After is time.After on the virtual clock.
+//go:norace
 func After(d time.Duration) <-chan time.Time {
 	if Native {
 		return time.After(d / NativeScale)
@@ -1213,6 +1287,7 @@ func After(d time.Duration) <-chan time.Time {
 }
 
 // Sleep is time.Sleep on the virtual clock.
+//go:norace
 func Sleep(d time.Duration) {
 	if Native {
 		time.Sleep(d / NativeScale)
@@ -1237,6 +1312,7 @@ type Timer struct {
 	real *time.Timer
 }
 
+//go:norace
 func AfterFunc(d time.Duration, f func()) *Timer {
 	if Native {
 		return &Timer{real: time.AfterFunc(d/NativeScale, f)}
@@ -1247,6 +1323,7 @@ func AfterFunc(d time.Duration, f func()) *Timer {
 	return &Timer{st: E.newTimer(d, nil, f)}
 }
 
+//go:norace
 func (t *Timer) Stop() bool {
 	if t.real != nil {
 		return t.real.Stop()
@@ -1263,6 +1340,7 @@ func (t *Timer) Stop() bool {
 
 // ---------------------------------------------------------------- scheduler
 
+//go:norace
 func (e *Exec) enabled(t *Thread) bool {
 	if t.done {
 		return false
@@ -1291,6 +1369,7 @@ func (e *Exec) enabled(t *Thread) bool {
 	return false
 }
 
+//go:norace
 func lessPath(a, b []int32) bool {
 	for i := 0; i < len(a) && i < len(b); i++ {
 		if a[i] != b[i] {
@@ -1306,6 +1385,7 @@ type divergence struct{ msg string }
 // its default and is not offered to the explorer: a harness uses this for its set-up phase (e.g. the
 // connection handshake), so that the deviation budget is spent on the phase under study. The state
 // reached is the one the default schedule produces.
+//go:norace
 func SetExploring(on bool) {
 	if Native || E == nil {
 		return
@@ -1313,6 +1393,7 @@ func SetExploring(on bool) {
 	E.notExploring = !on
 }
 
+//go:norace
 func (e *Exec) choose(kind byte, n int, altCost uint8, sig uint64, alts []string) int {
 	if e.notExploring {
 		return 0
@@ -1352,6 +1433,7 @@ func (e *Exec) choose(kind byte, n int, altCost uint8, sig uint64, alts []string
 	return pick
 }
 
+//go:norace
 func (e *Exec) fullSig() [2]uint64 {
 	s := e.sig
 	s[0] += mix(uint64(e.now), 77)
@@ -1360,6 +1442,7 @@ func (e *Exec) fullSig() [2]uint64 {
 }
 
 // pendingTimers returns live timers sorted by (deadline, creation).
+//go:norace
 func (e *Exec) pendingTimers() []*chState {
 	live := e.timers[:0]
 	for _, s := range e.timers {
@@ -1378,6 +1461,7 @@ func (e *Exec) pendingTimers() []*chState {
 	return out
 }
 
+//go:norace
 func (e *Exec) fire(s *chState) {
 	s.fired = true
 	if s.at > e.now {
@@ -1398,6 +1482,7 @@ func (e *Exec) fire(s *chState) {
 
 // advance moves the clock to the earliest deadline and fires what is due; equal deadlines fire in
 // creation order (their waiters become enabled together, so the wake-up order is still a thread choice).
+//go:norace
 func (e *Exec) advance() bool {
 	ts := e.pendingTimers()
 	if len(ts) == 0 {
@@ -1417,6 +1502,7 @@ func (e *Exec) advance() bool {
 
 const stallLimit = 30 * time.Second
 
+//go:norace
 func (e *Exec) resume(t *Thread) {
 	e.cur = t
 	e.Steps++
@@ -1428,8 +1514,10 @@ func (e *Exec) resume(t *Thread) {
 	if e.opt.Trace != nil {
 		e.opt.Trace(fmt.Sprintf("t=%v step=%d run %v %s%s", e.now, e.Steps, t, t.Pending(), t.where))
 	}
+	raceDisable()
 	t.wake <- struct{}{}
 	<-e.yield
+	raceEnable()
 }
 
 // progress is bumped at every scheduling step; the watchdog aborts the process as a harness error
@@ -1461,19 +1549,19 @@ var runStartHooks []func()
 // OnRunStart registers a function that runs at the start of every execution, before thread 0: shims
 // use it to reset package-level state of the code under test (sequence counters), so that every
 // execution starts from the same state.
+//go:norace
 func OnRunStart(f func()) { runStartHooks = append(runStartHooks, f) }
 
 // Run executes body as thread 0 under the scheduler and returns when the execution is over.
+//go:norace
 func Run(opt Options, body func(e *Exec)) *Exec {
 	if Native {
 		panic("vsched.Run in Native mode")
 	}
-	raceDisable()
-	defer raceEnable()
 	if opt.MaxSteps == 0 {
 		opt.MaxSteps = 2_000_000
 	}
-	e := &Exec{opt: opt, yield: make(chan struct{}), chans: map[uintptr]*chState{}, Trace: make([]Choice, 0, 128)}
+	e := &Exec{opt: opt, yield: make(chan struct{}), Trace: make([]Choice, 0, 128)}
 	E = e
 	watchdogOnce.Do(func() { go watchdog() })
 	for _, h := range runStartHooks {
@@ -1568,6 +1656,7 @@ func Run(opt Options, body func(e *Exec)) *Exec {
 		e.Deadlock = e.findDeadlock()
 	}
 	e.tearing = true
+	raceDisable()
 	// Phase 1: every live thread publishes its past and parks again; phase 2: they unwind one at a
 	// time (deferred calls of the code under test never run in parallel with each other).
 	var live []*Thread
@@ -1589,10 +1678,14 @@ func Run(opt Options, body func(e *Exec)) *Exec {
 		close(t.wake2)
 		e.waitExit(t)
 	}
+	raceEnable()
+	// everything the threads did happens before what the caller does next (final checks)
+	raceAcquireObj(unsafe.Pointer(&tearToken))
 	E = nil
 	return e
 }
 
+//go:norace
 func (e *Exec) waitChan(t *Thread, c chan struct{}) {
 	select { // the watchdog aborts the process if this never happens
 	case <-c:
@@ -1600,30 +1693,14 @@ func (e *Exec) waitChan(t *Thread, c chan struct{}) {
 	}
 }
 
+//go:norace
 func (e *Exec) waitExit(t *Thread) { e.waitChan(t, t.exited) }
 
 // findDeadlock reports threads that can never continue: waiting for a lock whose holder has exited
 // or (transitively) waits for them; and, when no timer is pending at all, every thread parked in a
 // lock or WaitGroup operation.
+//go:norace
 func (e *Exec) findDeadlock() string {
-	holders := func(t *Thread) []*Thread {
-		switch t.kind {
-		case opLock:
-			if t.mu.locked {
-				return []*Thread{t.mu.owner}
-			}
-		case opRWAnnounce, opRLock:
-			if t.rw.announced && t.rw.wowner != nil {
-				return []*Thread{t.rw.wowner}
-			}
-			if t.rw.announced {
-				return t.rw.announcer()
-			}
-		case opRWLock:
-			return t.rw.readersBy
-		}
-		return nil
-	}
 	var stuck []string
 	noTimers := len(e.pendingTimers()) == 0
 	for _, t := range e.threads {
@@ -1640,7 +1717,7 @@ func (e *Exec) findDeadlock() string {
 		}
 		// follow holder chains
 		seen := map[*Thread]bool{t: true}
-		work := holders(t)
+		work := holdersOf(t)
 		dead := false
 		for len(work) > 0 && !dead {
 			h := work[0]
@@ -1656,7 +1733,7 @@ func (e *Exec) findDeadlock() string {
 				continue
 			}
 			seen[h] = true
-			work = append(work, holders(h)...)
+			work = append(work, holdersOf(h)...)
 		}
 		if dead || noTimers {
 			stuck = append(stuck, fmt.Sprintf("%v blocked forever in %s", t, t.Pending()))
@@ -1666,6 +1743,7 @@ func (e *Exec) findDeadlock() string {
 }
 
 // HeldLocks lists modelled mutexes that are held right now (call from a final check).
+//go:norace
 func (e *Exec) HeldLocks() []string {
 	var out []string
 	for _, m := range e.mutexes {
@@ -1682,6 +1760,7 @@ func (e *Exec) HeldLocks() []string {
 }
 
 // Picks converts a recorded trace into a replayable prefix.
+//go:norace
 func Picks(tr []Choice) []Pick {
 	p := make([]Pick, len(tr))
 	for i, c := range tr {
@@ -1694,6 +1773,7 @@ func Picks(tr []Choice) []Pick {
 
 // SortedKeys returns the keys of m in sorted order (strings and integers only; the instrumenter
 // rejects other key types).
+//go:norace
 func SortedKeys[M ~map[K]V, K comparable, V any](m M) []K {
 	keys := make([]K, 0, len(m))
 	for k := range m {
@@ -1703,6 +1783,7 @@ func SortedKeys[M ~map[K]V, K comparable, V any](m M) []K {
 	return keys
 }
 
+//go:norace
 func lessAny(a, b any) bool {
 	va, vb := reflect.ValueOf(a), reflect.ValueOf(b)
 	switch va.Kind() {
@@ -1720,6 +1801,7 @@ func lessAny(a, b any) bool {
 var EnvFloat64Script func() float64
 
 // EnvFloat64 replaces math/rand.Float64: a scripted answer, else a per-execution deterministic sequence.
+//go:norace
 func EnvFloat64() float64 {
 	if EnvFloat64Script != nil {
 		return EnvFloat64Script()
@@ -1735,6 +1817,7 @@ func EnvFloat64() float64 {
 var EnvRandScript func(b []byte)
 
 // EnvRandRead replaces crypto/rand.Read: scripted, else a per-execution deterministic byte stream.
+//go:norace
 func EnvRandRead(b []byte) (int, error) {
 	if EnvRandScript != nil {
 		EnvRandScript(b)
@@ -1749,4 +1832,81 @@ func EnvRandRead(b []byte) (int, error) {
 		b[i] = byte(mix(seq, uint64(i)+0xb17e5))
 	}
 	return len(b), nil
+}
+
+
+// chanTable maps channel addresses to their modelled state. It is a hand-written open-addressing
+// table rather than a Go map because the runtime's map functions are race-instrumented even when
+// called from //go:norace code, and the scheduler's own bookkeeping must stay invisible to TSan.
+type chanTable struct {
+	keys []uintptr
+	vals []*chState
+	n    int
+}
+
+//go:norace
+func (t *chanTable) slot(k uintptr) int {
+	mask := uintptr(len(t.keys) - 1)
+	i := (k >> 4) * 0x9e3779b97f4a7c15 >> 7 & mask
+	for t.keys[i] != 0 && t.keys[i] != k {
+		i = (i + 1) & mask
+	}
+	return int(i)
+}
+
+//go:norace
+func (t *chanTable) get(k uintptr) *chState {
+	if len(t.keys) == 0 {
+		return nil
+	}
+	return t.vals[t.slot(k)]
+}
+
+//go:norace
+func (t *chanTable) put(k uintptr, v *chState) {
+	if t.n*2 >= len(t.keys) {
+		ok, ov := t.keys, t.vals
+		size := 64
+		if len(ok) > 0 {
+			size = len(ok) * 2
+		}
+		t.keys, t.vals, t.n = make([]uintptr, size), make([]*chState, size), 0
+		for i, kk := range ok {
+			if kk != 0 {
+				t.put(kk, ov[i])
+			}
+		}
+	}
+	i := t.slot(k)
+	if t.keys[i] == 0 {
+		t.n++
+	}
+	t.keys[i], t.vals[i] = k, v
+}
+
+
+//go:norace
+func holdersOf(t *Thread) []*Thread {
+	switch t.kind {
+	case opLock:
+		if t.mu.locked {
+			return []*Thread{t.mu.owner}
+		}
+	case opRWAnnounce, opRLock:
+		if t.rw.announced && t.rw.wowner != nil {
+			return []*Thread{t.rw.wowner}
+		}
+		if t.rw.announced {
+			return t.rw.announcer()
+		}
+	case opRWLock:
+		return t.rw.readersBy
+	}
+	return nil
+}
+
+//go:norace
+func (o *Once) finish() {
+	raceReleaseObj(unsafe.Pointer(o))
+	o.done = true
 }
